@@ -95,6 +95,10 @@ TARGETS = [
     ("pams/simulator.py", "Simulator", "_update_times_on_markets"),
     ("pams/session.py", "Session", "setup"),
     ("pams/utils/json_extends.py", None, "json_extends"),
+    ("pams/utils/json_random.py", "JsonRandom", "_next_uniform"),
+    ("pams/utils/json_random.py", "JsonRandom", "_next_normal"),
+    ("pams/utils/json_random.py", "JsonRandom", "_next_exponential"),
+    ("pams/utils/json_random.py", "JsonRandom", "random"),
     ("pams/runners/sequential.py", "SequentialRunner", "_handle_orders"),
     ("pams/runners/sequential.py", "SequentialRunner", "_collect_orders_from_normal_agents"),
     ("pams/runners/sequential.py", "SequentialRunner", "_update_markets"),
